@@ -94,8 +94,18 @@ class ValueGen:
         self.hostile = hostile
         self.multiline = multiline
 
+    def wild_string(self):
+        """a quoted-string token whose content is drawn from broad character classes"""
+        from . import textgen
+        t = textgen.text(self.rng, 1, 8, exclude=["nul"])
+        t = t.replace("\x00", "").replace("\r\n", "\n").replace("\r", "").replace("\n", "\r\n")
+        t = t.replace("\\", "\\\\").replace('"', '\\"')
+        return b'"' + t.encode("utf-8") + b'"'
+
     def string(self, allow_ml=True):
         r = self.rng.random()
+        if r > 0.93:
+            return self.wild_string()
         if allow_ml and r < self.multiline:
             return self.rng.choice(MULTILINES)
         if r < self.multiline + self.hostile:
